@@ -75,7 +75,7 @@ def _val(name):
 
 
 _NF, _NMAX, _NN = "dim(grid, 'n_face')", "uf('n_max_face_nodes', src(grid))", "dim(grid, 'n_node')"
-inline(_G + "n_face", _G + "n_node", _G + "n_edge", _G + "n_nodes_per_face", _G + "face_edge_connectivity",
+inline(_G + "n_face", _G + "n_node", _G + "n_edge", _G + "n_nodes_per_face", _G + "face_edge_connectivity", _G + "n_max_face_edges",
        _G + "edge_face_connectivity", _G + "node_face_connectivity", _G + "face_face_connectivity")
 
 # n_nodes_per_face
